@@ -20,6 +20,14 @@ func checkC07(p *Program, tier string) *Result {
 	if r.takeFrom(sub, "R-SIBLING", "mismatch-path") == 0 {
 		r.undecided("R-SIBLING", "mismatch-path", "-", "the reader's key-mismatch path was not found")
 	}
+	// ... and the signature is recognised: per-type decoder trials, threshold, and the decoders raise the
+	// mismatch error before any content test (a mismatched request must not slip through to a handler)
+	if r.takeFrom(sub, "R-SIBLING", "detectBadSecret")+r.takeFrom(sub, "R-SIBLING", "mismatch-producer") < 14 {
+		r.undecided("R-SIBLING", "mismatch-detection", "-", "the key-mismatch detector's clauses were not produced")
+	}
+	// the reply marshals: text echoed into reply fields is ASCII on every execution
+	ruleEcho(p, r)
+	r.floor("R-ECHO", 30)
 	r.Assumptions = append(r.Assumptions,
 		"each reply invocation puts one packet on the wire provided the reply body marshals; bodies built from configuration values (session authorization arguments) are assumed to marshal",
 		"handlers outside the module (third-party Handler implementations injected through the loader) are not analysed")
